@@ -418,7 +418,8 @@ def rule_sender(program, ctx):
             else:
                 ctx.ok(rid, st, f"`{var}` is rebuilt from the dequeued pair on every path to ws_send")
     # mapping of the two branches
-    msg_assigns = [s for s in walk_no_nested(fn) if isinstance(s, ast.Assign) and isinstance(s.targets[0], ast.Name) and s.targets[0].id == "message"]
+    frame_vars = {c.args[0].id for sn in sends for c in own_calls(cfg.ast_of(sn)) if call_name(c) == "ws_send" and c.args and isinstance(c.args[0], ast.Name)}
+    msg_assigns = [s for s in walk_no_nested(fn) if isinstance(s, ast.Assign) and isinstance(s.targets[0], ast.Name) and s.targets[0].id in frame_vars]
     eose = [s for s in msg_assigns if any(isinstance(k, ast.Constant) and isinstance(k.value, str) and "EOSE" in k.value for k in ast.walk(s.value))]
     evs = [s for s in msg_assigns if any(isinstance(c, ast.Call) and call_name(c) == "event_as_json" for c in ast.walk(s.value))]
     if not eose:
@@ -473,7 +474,7 @@ def rule_liveness(program, ctx, prop=P, rid="C13.liveness"):
     elif put is None:
         ctx.bad(finding_func(prop, rid, notify, "BaseSubscription.notify no longer delivers through queue.put", text="def notify(...)"))
     else:
-        ctx.bad(finding_at(prop, rid, put,
+        ctx.bad(finding_at(prop, rid, put, label="no liveness test after close", message=
                            "a live event is queued for, and queued items are later sent to, a subscription that was closed/replaced in the "
                            "meantime: neither BaseSubscription.notify nor send_subscriptions tests that the subscription is still open, and "
                            "unsubscribe does not purge the queue"))
